@@ -353,7 +353,66 @@ pub const IFDATA_PAYLOADS: &[(&str, &str)] = &[
         ("unknown-floats", "ZZZ 1e3 2.0 -0.0 1e-300 0.1 1e300 4294967296.0"),
         ("unknown-wide-ints", "ZZZ 4294967295 4294967297 -2147483649 18446744073709551615 0x1FFFFFFFF"),
         ("unknown-bare-values", "1 2.5 \"s\" 7.0"),
+        ("unknown-siblings", "ZZZ /begin Q 1 /end Q /begin R 2 /end R TAGX 5 /begin Q 3 /end Q TAGY"),
+        ("xcp-siblings", "XCP /begin SEG 1 2 3 4 5 1.5 2.5 \"t\" /end SEG FLAG /begin NEST A 1 /begin B \"s\" x /end B /end NEST REP 7"),
 ];
+
+/// IF_DATA payloads (interpreted through an in-file A2ML definition and uninterpreted), all on one line or one
+/// token per line, with one gap between two payload tokens changed: whitespace shapes (`ws`) and / or comment shapes (`cm`)
+pub fn ifdata_gap_cases(ws: bool, cm: bool, out: &mut Vec<Case>) {
+    for (pn, pl) in IFDATA_PAYLOADS {
+        let ptoks: Vec<&str> = pl.split_whitespace().collect();
+        if ptoks.is_empty() {
+            continue;
+        }
+        let mut bt = vec!["/begin", "IF_DATA"];
+        bt.extend(ptoks.iter().copied());
+        bt.extend(["/end", "IF_DATA"]);
+        for with_a2ml in [false, true] {
+            let head = vcore::ifdoc::doc_text(with_a2ml.then(|| IFDATA_A2ML.trim()), &[]);
+            let head = head.strip_suffix("  /end MODULE\n/end PROJECT\n").unwrap().to_string();
+            for (bn, base) in [("one-line", " "), ("line-per-token", "\n      ")] {
+                let mut variants: Vec<(String, Option<(usize, String)>)> = vec![(format!("ifdata-{bn}"), None)];
+                for gap in 2..bt.len() - 1 {
+                    if bt[gap - 1] == "/begin" || bt[gap - 1] == "/end" {
+                        continue;
+                    }
+                    if ws {
+                        for (n, w) in WS {
+                            if w.trim_matches(' ') == base.trim_matches(' ') {
+                                continue;
+                            }
+                            variants.push((format!("ifdata-ws:{n}@{bn}"), Some((gap, w.to_string()))));
+                        }
+                    }
+                    if cm {
+                        // the role of the gap: in front of a block, in front of a value / tag, in front of the final /end
+                        let role = if bt[gap] == "/begin" { "before-block" } else if bt[gap] == "/end" { "before-end" } else if gap == 2 { "first" } else { "before-token" };
+                        for (n, c) in CM {
+                            variants.push((format!("ifdata-cm:{n}@{role}"), Some((gap, c.to_string()))));
+                        }
+                    }
+                }
+                for (class, var) in variants {
+                    let mut t = head.clone();
+                    t.push_str("    ");
+                    for (i, tok) in bt.iter().enumerate() {
+                        if i > 0 {
+                            let default = if bt[i - 1] == "/begin" || bt[i - 1] == "/end" { " " } else { base };
+                            t.push_str(match &var {
+                                Some((g, w)) if *g == i => w,
+                                _ => default,
+                            });
+                        }
+                        t.push_str(tok);
+                    }
+                    t.push_str("\n  /end MODULE\n/end PROJECT\n");
+                    out.push(Case { label: format!("ifdata({pn},a2ml={with_a2ml}) {class} {:?}", var.as_ref().map(|v| v.0)), class, text: t, spec: None, parts: vec![] });
+                }
+            }
+        }
+    }
+}
 
 pub fn ifdata_cases(g: &Grammar, out: &mut Vec<Case>) {
     let mut gen = Gen::new(g);
@@ -477,6 +536,8 @@ pub fn build_cases(g: &Grammar, thorough: bool) -> Vec<Case> {
         }
     }
     ifdata_cases(g, &mut out);
+    // whitespace and comment shapes at every gap inside IF_DATA payloads
+    ifdata_gap_cases(true, true, &mut out);
     // CRLF crossed with A2ML / IF_DATA
     let n = out.len();
     for i in 0..n {
@@ -739,7 +800,7 @@ pub fn run(tier: &str) -> Run {
     run.require("cm: stable", 1000);
     run.require("val: stable", 1000);
     run.require("ifdata: stable", 50);
-    run.rule = "documents = grammar carriers + every optional slot (once, twice, pairs) + every enum item, each also with CRLF; whitespace (7 kinds) and comments (7 kinds) at every gap of every carrier and of rich documents, all pairs on selected documents; every value class at every scalar parameter (ints per width, 28 float notations, all strings of <= k escape units, identifier shapes); IF_DATA x {with/without A2ML} x {built-in spec} x CRLF; the MODULE content of every carrier / optional-slot / rich document through load_fragment (equal to the module of the whole document, stable when placed in a new file); every such document written with a banner to a file and loaded from it. Oracle: t0 -load-> M0 -write-> t1 -load-> M1 -write-> t2: reload ok, M1 == M0, t2 == t1 bytewise (3rd cycle classifies drift). distinct = distinct input text; non-trivial = accepted by the loader".into();
+    run.rule = "documents = grammar carriers + every optional slot (once, twice, pairs) + every enum item, each also with CRLF; whitespace (7 kinds) and comments (7 kinds) at every gap of every carrier and of rich documents, all pairs on selected documents; every value class at every scalar parameter (ints per width, 28 float notations, all strings of <= k escape units, identifier shapes); IF_DATA x {with/without A2ML} x {built-in spec} x CRLF; 7 whitespace and 10 comment shapes at every gap inside 10 IF_DATA payloads; the MODULE content of every carrier / optional-slot / rich document through load_fragment (equal to the module of the whole document, stable when placed in a new file); every such document written with a banner to a file and loaded from it. Oracle: t0 -load-> M0 -write-> t1 -load-> M1 -write-> t2: reload ok, M1 == M0, t2 == t1 bytewise (3rd cycle classifies drift). distinct = distinct input text; non-trivial = accepted by the loader".into();
     run.assumptions = vec!["inputs the loader rejects are outside the quantifier and only counted".into()];
     run
 }
